@@ -168,6 +168,19 @@ pub fn run_c06(ctx: &Ctx) {
             }
         }
     }
+    // budgets around the widths a narrower counter or a packed (count, budget) word would have: 8 and 16 bits
+    for &arm in &ARMS {
+        for &n in &[255usize, 256, 257, 65535, 65536, 65537] {
+            for k in [0, 1, n - 1, n, n + 1, n + 2] {
+                for &t in &[1usize, 4] {
+                    if t > 1 && (n > 1000 && !ctx.thorough) {
+                        continue;
+                    }
+                    trials.push((arm, n, k, t, 0, usize::MAX));
+                }
+            }
+        }
+    }
     // boundary trials: exactly N matching calls, each on its own thread, released together with several
     // NON-matching calls on other threads (a rejected call must never take a slot of the budget, not even
     // for a moment)
